@@ -381,6 +381,81 @@ theorem evalT_cover (d : Bool) (τ : List Nat → Bool) : ∀ (t : Tree) (p c : 
       simp [cover] at hc; obtain ⟨c', hc', rfl⟩ := hc
       simp [negFree, hc'] at hn
 
+/-- **chain lemma for operations**: without negation on the chain, an element has the value of the
+operation it covers -/
+theorem evalT_coverOp (d : Bool) (τ : List Nat → Bool) : ∀ (t : Tree) (p c : List Nat) (o : Tree),
+    negFreeOp t = true → coverOp t = some c → t.at? c = some o → evalT d τ p t = evalT d τ (p ++ c) o
+  | .op .., p, c, o, _, hc, ho => by
+      simp [coverOp] at hc; subst hc; simp [at?_nil] at ho; subst ho; simp
+  | .term .., p, c, o, _, hc, _ => by simp [coverOp] at hc
+  | .range .., p, c, o, _, hc, _ => by simp [coverOp] at hc
+  | .approx .., p, c, o, _, hc, _ => by simp [coverOp] at hc
+  | .none _, p, c, o, _, hc, _ => by simp [coverOp] at hc
+  | .field _ e _, p, c, o, hn, hc, ho => by
+      simp [coverOp] at hc; obtain ⟨c', hc', rfl⟩ := hc
+      simp only [negFreeOp] at hn
+      simp [at?_cons, Tree.children] at ho
+      simp [evalT, evalT_coverOp d τ e (p ++ [0]) c' o hn hc' ho]
+  | .group _ e _, p, c, o, hn, hc, ho => by
+      simp [coverOp] at hc; obtain ⟨c', hc', rfl⟩ := hc
+      simp only [negFreeOp] at hn
+      simp [at?_cons, Tree.children] at ho
+      simp [evalT, evalT_coverOp d τ e (p ++ [0]) c' o hn hc' ho]
+  | .boost e _ _, p, c, o, hn, hc, ho => by
+      simp [coverOp] at hc; obtain ⟨c', hc', rfl⟩ := hc
+      simp only [negFreeOp] at hn
+      simp [at?_cons, Tree.children] at ho
+      simp [evalT, evalT_coverOp d τ e (p ++ [0]) c' o hn hc' ho]
+  | .orange _ e _ _, p, c, o, hn, hc, ho => by
+      simp [coverOp] at hc; obtain ⟨c', hc', rfl⟩ := hc
+      simp only [negFreeOp] at hn
+      simp [at?_cons, Tree.children] at ho
+      simp [evalT, evalT_coverOp d τ e (p ++ [0]) c' o hn hc' ho]
+  | .unary .plus e _, p, c, o, hn, hc, ho => by
+      simp [coverOp] at hc; obtain ⟨c', hc', rfl⟩ := hc
+      simp only [negFreeOp] at hn
+      simp [at?_cons, Tree.children] at ho
+      simp [evalT, evalT_coverOp d τ e (p ++ [0]) c' o hn hc' ho]
+  | .unary .not e _, p, c, o, hn, _, _ => by simp [negFreeOp] at hn
+  | .unary .prohibit e _, p, c, o, hn, _, _ => by simp [negFreeOp] at hn
+
+/-- when no negation lies strictly between an element and the operation it covers, the value of the
+element before its own negation is the value of that operation -/
+theorem preVal_coverOp (d : Bool) (τ : List Nat → Bool) : ∀ (t : Tree) (p c : List Nat) (o : Tree),
+    negFreeBelow t = true → coverOp t = some c → t.at? c = some o →
+    preVal d τ p t = evalT d τ (p ++ c) o
+  | .op .., p, c, o, _, hc, ho => by
+      simp [coverOp] at hc; subst hc; simp [at?_nil] at ho; subst ho; simp [preVal, isNeg]
+  | .term .., p, c, o, _, hc, _ => by simp [coverOp] at hc
+  | .range .., p, c, o, _, hc, _ => by simp [coverOp] at hc
+  | .approx .., p, c, o, _, hc, _ => by simp [coverOp] at hc
+  | .none _, p, c, o, _, hc, _ => by simp [coverOp] at hc
+  | .field _ e _, p, c, o, hn, hc, ho => by
+      simp [coverOp] at hc; obtain ⟨c', hc', rfl⟩ := hc
+      simp only [negFreeBelow] at hn
+      simp [at?_cons, Tree.children] at ho
+      simp [preVal, isNeg, evalT, evalT_coverOp d τ e (p ++ [0]) c' o hn hc' ho]
+  | .group _ e _, p, c, o, hn, hc, ho => by
+      simp [coverOp] at hc; obtain ⟨c', hc', rfl⟩ := hc
+      simp only [negFreeBelow] at hn
+      simp [at?_cons, Tree.children] at ho
+      simp [preVal, isNeg, evalT, evalT_coverOp d τ e (p ++ [0]) c' o hn hc' ho]
+  | .boost e _ _, p, c, o, hn, hc, ho => by
+      simp [coverOp] at hc; obtain ⟨c', hc', rfl⟩ := hc
+      simp only [negFreeBelow] at hn
+      simp [at?_cons, Tree.children] at ho
+      simp [preVal, isNeg, evalT, evalT_coverOp d τ e (p ++ [0]) c' o hn hc' ho]
+  | .orange _ e _ _, p, c, o, hn, hc, ho => by
+      simp [coverOp] at hc; obtain ⟨c', hc', rfl⟩ := hc
+      simp only [negFreeBelow] at hn
+      simp [at?_cons, Tree.children] at ho
+      simp [preVal, isNeg, evalT, evalT_coverOp d τ e (p ++ [0]) c' o hn hc' ho]
+  | .unary k e _, p, c, o, hn, hc, ho => by
+      simp [coverOp] at hc; obtain ⟨c', hc', rfl⟩ := hc
+      simp only [negFreeBelow] at hn
+      simp [at?_cons, Tree.children] at ho
+      cases k <;> simp [preVal, isNeg, evalT, evalT_coverOp d τ e (p ++ [0]) c' o hn hc' ho]
+
 theorem opFree_isOp (t : Tree) (h : opFree t = true) : isOp t = false := by
   cases t <;> simp [opFree, isOp] at h ⊢
 
@@ -481,20 +556,41 @@ structure CfgSpec (cfg : PropCfg) (d : Bool) : Prop where
   negNodes : ∀ t, isInstanceOf cfg.negNodes t = isNeg t
   noDescend : ∀ t, isInstanceOf cfg.noDescend t = isAtomic t
 
-/-- `matching` / `other` = the named elements of `T` whose covered term is true / is not -/
-structure Ctx (τ : List Nat → Bool) (T : Tree) (m o : List (List Nat)) : Prop where
-  hm : ∀ p, p ∈ m ↔ p ∈ named T ∧ coverVal τ T p = true
-  ho : ∀ p, p ∈ o ↔ p ∈ named T ∧ coverVal τ T p = false
+/-- what the proof needs of `matching` / `other`: both list named elements only; a named element
+which covers a term is in `matching` when the term is true and in `other` when it is not; a named
+element which covers no term (it covers an operation) may be in `other` or in neither, and is in
+`matching` only if its value, before its own negation, is true -/
+structure Ctx (d : Bool) (τ : List Nat → Bool) (T : Tree) (m o : List (List Nat)) : Prop where
+  sub_m : ∀ p, p ∈ m → p ∈ named T
+  sub_o : ∀ p, p ∈ o → p ∈ named T
+  term_m : ∀ p t c, p ∈ named T → T.at? p = some t → cover t = some c → (p ∈ m ↔ τ (p ++ c) = true)
+  term_o : ∀ p t c, p ∈ named T → T.at? p = some t → cover t = some c → (p ∈ o ↔ τ (p ++ c) = false)
+  oper : ∀ p t, p ∈ m → T.at? p = some t → cover t = none → preVal d τ p t = true
+
+/-- the special case of the statement of the property: `matching` / `other` = the named elements of
+`T` whose covered term is true / is not (those which cover an operation are all in `other`) -/
+theorem Ctx.of_iff {d : Bool} {τ : List Nat → Bool} {T : Tree} {m o : List (List Nat)}
+    (hm : ∀ p, p ∈ m ↔ p ∈ named T ∧ coverVal τ T p = true)
+    (ho : ∀ p, p ∈ o ↔ p ∈ named T ∧ coverVal τ T p = false) : Ctx d τ T m o := by
+  refine ⟨fun p h => ((hm p).1 h).1, fun p h => ((ho p).1 h).1, ?_, ?_, ?_⟩
+  · intro p t c hn hat hc
+    rw [hm]; simp [coverVal, hat, hc, hn]
+  · intro p t c hn hat hc
+    rw [ho]; simp [coverVal, hat, hc, hn]
+  · intro p t hp hat hc
+    have := ((hm p).1 hp).2
+    simp [coverVal, hat, hc] at this
 
 /-- the invariant of the traversal: `t` is the node of `T` at `path`; it satisfies the tree
 hypotheses; if it covers a term, the status it inherits (from itself or the nearest named ancestor)
-is the truth of that term; and it is not reported matching unless it covers a term -/
-structure Inv (τ : List Nat → Bool) (T : Tree) (m o : List (List Nat)) (path : List Nat) (t : Tree) :
-    Prop where
+is the truth of that term; and if it is reported matching without covering a term, its value
+before its own negation is true -/
+structure Inv (d : Bool) (τ : List Nat → Bool) (T : Tree) (m o : List (List Nat)) (path : List Nat)
+    (t : Tree) : Prop where
   at_ : T.at? path = some t
   good : good false t = true
   status : ∀ c, cover t = some c → statusFromParent m o (path.length + 1) path = τ (path ++ c)
-  unmatched : cover t = none → path ∉ m
+  matched : path ∈ m → cover t = none → preVal d τ path t = true
 
 theorem not_named_child (T t : Tree) (path : List Nat) (i : Nat) (hat : T.at? path = some t)
     (ho : isOp t = false) : path ++ [i] ∉ named T := by
@@ -514,57 +610,56 @@ theorem at?_child (T t c : Tree) (path : List Nat) (i : Nat) (hat : T.at? path =
   simp [at?_append, hat, at?_cons, hc, at?_nil]
 
 section
-variable {τ : List Nat → Bool} {T : Tree} {m o : List (List Nat)}
+variable {d : Bool} {τ : List Nat → Bool} {T : Tree} {m o : List (List Nat)}
 
 /-- a named element satisfies the invariant -/
-theorem Inv.of_named (C : Ctx τ T m o) (path : List Nat) (t : Tree) (hn : path ∈ named T)
-    (hat : T.at? path = some t) (hg : Propagate.good false t = true) : Inv τ T m o path t := by
-  have hcv : coverVal τ T path = match cover t with | some c => τ (path ++ c) | none => false := by
-    cases hc : cover t <;> simp [coverVal, hat, hc]
-  refine ⟨hat, hg, ?_, ?_⟩
-  · intro c hc
-    rw [hc] at hcv
-    rw [sfp_succ]
-    cases hv : τ (path ++ c)
-    · have h1 : path ∉ m := by rw [C.hm]; simp [hcv, hv]
-      have h2 : path ∈ o := by rw [C.ho]; simp [hcv, hv, hn]
-      simp [h1, h2]
-    · have h1 : path ∈ m := by rw [C.hm]; simp [hcv, hv, hn]
-      simp [h1]
-  · intro hc
-    rw [hc] at hcv
-    rw [C.hm]; simp [hcv]
+theorem Inv.of_named (C : Ctx d τ T m o) (path : List Nat) (t : Tree) (hn : path ∈ named T)
+    (hat : T.at? path = some t) (hg : Propagate.good false t = true) : Inv d τ T m o path t := by
+  refine ⟨hat, hg, ?_, fun hm hc => C.oper path t hm hat hc⟩
+  intro c hc
+  rw [sfp_succ]
+  cases hv : τ (path ++ c)
+  · have h1 : path ∉ m := by rw [C.term_m path t c hn hat hc]; simp [hv]
+    have h2 : path ∈ o := by rw [C.term_o path t c hn hat hc]; simp [hv]
+    simp [h1, h2]
+  · have h1 : path ∈ m := by rw [C.term_m path t c hn hat hc]; simp [hv]
+    simp [h1]
 
 /-- the operand of a visited single-operand node satisfies the invariant -/
-theorem Inv.child (C : Ctx τ T m o) (path : List Nat) (t e : Tree) (I : Inv τ T m o path t)
+theorem Inv.child (C : Ctx d τ T m o) (path : List Nat) (t e : Tree) (I : Inv d τ T m o path t)
     (hc : t.children = [e]) (hop : isOp t = false) (ha : isAtomic t = false) :
-    Inv τ T m o (path ++ [0]) e := by
+    Inv d τ T m o (path ++ [0]) e := by
   have hg := good_child false t e hc hop ha I.good
   have hnn := not_named_child T t path 0 I.at_ hop
-  have h1 : path ++ [0] ∉ m := by rw [C.hm]; simp [hnn]
-  have h2 : path ++ [0] ∉ o := by rw [C.ho]; simp [hnn]
-  refine ⟨at?_child T t e path 0 I.at_ (by simp [hc]), good_mono e hg, ?_, fun _ => h1⟩
+  have h1 : path ++ [0] ∉ m := fun h => hnn (C.sub_m _ h)
+  have h2 : path ++ [0] ∉ o := fun h => hnn (C.sub_o _ h)
+  refine ⟨at?_child T t e path 0 I.at_ (by simp [hc]), good_mono e hg, ?_, fun h => absurd h h1⟩
   intro c hce
   rw [sfp_child m o path 0 h1 h2, I.status (0 :: c) (by simp [cover_child t e hc hop ha, hce])]
   simp
 
 /-- the operands of an operation satisfy the invariant -/
-theorem Inv.operand (C : Ctx τ T m o) (path : List Nat) (k : OpK) (xs : List Tree) (l : Lay)
-    (I : Inv τ T m o path (.op k xs l)) (j : Nat) (c : Tree) (hc : xs[j]? = some c) :
-    Inv τ T m o (path ++ [j]) c := by
+theorem Inv.operand (C : Ctx d τ T m o) (path : List Nat) (k : OpK) (xs : List Tree) (l : Lay)
+    (I : Inv d τ T m o path (.op k xs l)) (j : Nat) (c : Tree) (hc : xs[j]? = some c) :
+    Inv d τ T m o (path ++ [j]) c := by
   have hj : j < xs.length := (List.getElem?_eq_some_iff.1 hc).1
   have hg : goods xs = true := by have := I.good; simp [Propagate.good] at this; exact this.2
   exact Inv.of_named C _ c (named_child T path j k xs l I.at_ hj)
     (at?_child T _ c path j I.at_ (by simpa [Tree.children] using hc)) (goods_get xs j c hg hc)
 
 /-- a visited single-operand node reported matching has a true operand -/
-theorem Inv.match_child (d : Bool) (path : List Nat) (t e : Tree) (I : Inv τ T m o path t)
-    (hc : t.children = [e]) (hop : isOp t = false) (ha : isAtomic t = false) (hm : path ∈ m) :
+theorem Inv.match_child (path : List Nat) (t e : Tree) (I : Inv d τ T m o path t)
+    (hc : t.children = [e]) (hop : isOp t = false) (ha : isAtomic t = false)
+    (hev : evalT d τ path t = if isNeg t = true then !evalT d τ (path ++ [0]) e
+      else evalT d τ (path ++ [0]) e) (hm : path ∈ m) :
     evalT d τ (path ++ [0]) e = true := by
   have hg := good_child false t e hc hop ha I.good
   have hcov := cover_child t e hc hop ha
   cases hce : cover e with
-  | none => exact absurd hm (I.unmatched (by simp [hcov, hce]))
+  | none =>
+    have := I.matched hm (by simp [hcov, hce])
+    rw [preVal, hev] at this
+    cases hneg : isNeg t <;> simpa [hneg] using this
   | some c =>
     rw [evalT_cover d τ e _ c (good_negFree e hg) hce]
     have := I.status (0 :: c) (by simp [hcov, hce])
@@ -572,13 +667,13 @@ theorem Inv.match_child (d : Bool) (path : List Nat) (t e : Tree) (I : Inv τ T 
     simpa using this.symm
 
 /-- the root satisfies the invariant -/
-theorem Inv.root (C : Ctx τ T m o) (hg : Propagate.good false T = true) : Inv τ T m o [] T := by
+theorem Inv.root (C : Ctx d τ T m o) (hg : Propagate.good false T = true) : Inv d τ T m o [] T := by
   cases h : hasOperand T
   · exact Inv.of_named C [] T ((mem_named T []).2 (Or.inr ⟨rfl, h⟩)) (at?_nil T) hg
   · have hnn : [] ∉ named T := by rw [mem_named]; simp [h, isOperand]
-    have h1 : [] ∉ m := by rw [C.hm]; simp [hnn]
+    have h1 : [] ∉ m := fun h => hnn (C.sub_m _ h)
     obtain ⟨p, hp⟩ := (hasOperand_iff T).1 h
-    refine ⟨at?_nil T, hg, ?_, fun _ => h1⟩
+    refine ⟨at?_nil T, hg, ?_, fun h => absurd h h1⟩
     intro c hc
     simp [cover_no_operand false T c hg hc p] at hp
 
@@ -611,12 +706,18 @@ theorem nodeVal_op (S : CfgSpec cfg d) (m o : List (List Nat)) (path : List Nat)
       if isOrNode d t = true then (s :: ss).any id else (s :: ss).all id := by
   simp [nodeVal, S.negNodes, S.orNodes, hn, hm]
 
+/-- the override: a node reported matching (and not a negation) is matching -/
+theorem nodeVal_matched (S : CfgSpec cfg d) (m o : List (List Nat)) (path : List Nat) (t : Tree)
+    (ss : List Bool) (hn : isNeg t = false) (hm : path ∈ m) :
+    nodeVal cfg m o path t ss = true := by
+  simp [nodeVal, S.negNodes, hn, hm]
+
 /-! ### the main equation -/
 
 variable {τ : List Nat → Bool} {T : Tree} {m o : List (List Nat)}
 
 private theorem single_case (S : CfgSpec cfg d) (path : List Nat) (t e : Tree)
-    (I : Inv τ T m o path t) (hc : t.children = [e]) (hop : isOp t = false)
+    (I : Inv d τ T m o path t) (hc : t.children = [e]) (hop : isOp t = false)
     (ha : isAtomic t = false)
     (hvis : vis path t = vis (path ++ [0]) e ++ [(path, t)])
     (hev : evalT d τ path t = if isNeg t = true then !evalT d τ (path ++ [0]) e
@@ -627,10 +728,10 @@ private theorem single_case (S : CfgSpec cfg d) (path : List Nat) (t e : Tree)
   rw [propagate_single cfg m o path t e hc hop (by rw [S.noDescend, ha]), ih]
   rw [step_eq cfg m o path t _ _ _ (evalT d τ path t)]
   · simp only [hvis, okOf_append, koOf_append, okOf_single, koOf_single]
-  · rw [nodeVal_single S m o path t _ (Inv.match_child d path t e I hc hop ha), hev]
+  · rw [nodeVal_single S m o path t _ (Inv.match_child path t e I hc hop ha hev), hev]
 
 private theorem leaf_case (S : CfgSpec cfg d) (path : List Nat) (t : Tree)
-    (I : Inv τ T m o path t) (hc : t.children = [] ∨ isAtomic t = true) (hn : isNeg t = false)
+    (I : Inv d τ T m o path t) (hc : t.children = [] ∨ isAtomic t = true) (hn : isNeg t = false)
     (hcov : cover t = some [])
     (hvis : vis path t = [(path, t)]) (hev : evalT d τ path t = τ path) :
     propagate cfg m o path t = (evalT d τ path t, okOf d τ (vis path t), koOf d τ (vis path t)) := by
@@ -641,8 +742,8 @@ private theorem leaf_case (S : CfgSpec cfg d) (path : List Nat) (t : Tree)
 
 mutual
 /-- **`_propagate` computes the boolean value**, and splits the visited paths accordingly -/
-theorem propagate_eq (S : CfgSpec cfg d) (C : Ctx τ T m o) : ∀ (t : Tree) (path : List Nat),
-    Inv τ T m o path t →
+theorem propagate_eq (S : CfgSpec cfg d) (C : Ctx d τ T m o) : ∀ (t : Tree) (path : List Nat),
+    Inv d τ T m o path t →
     propagate cfg m o path t = (evalT d τ path t, okOf d τ (vis path t), koOf d τ (vis path t))
   | .term k v l, path, I => leaf_case S path _ I (Or.inl rfl) rfl rfl (by simp [vis]) (by simp [evalT])
   | .range a b il ih l, path, I =>
@@ -673,11 +774,16 @@ theorem propagate_eq (S : CfgSpec cfg d) (C : Ctx τ T m o) : ∀ (t : Tree) (pa
       simp only [evalTs]
       rw [step_eq cfg m o path _ _ _ _ (evalT d τ path (.op k (x :: xs) l))]
       · simp only [vis, okOf_append, koOf_append, okOf_single, koOf_single]
-      · rw [nodeVal_op S m o path _ _ _ rfl (I.unmatched rfl)]
-        cases k <;> simp [isOrNode, evalT, evalTs]
-theorem propagateList_eq (S : CfgSpec cfg d) (C : Ctx τ T m o) :
+      · by_cases hm : path ∈ m
+        · have := I.matched hm rfl
+          simp only [preVal, isNeg] at this
+          rw [nodeVal_matched S m o path _ _ rfl hm]
+          simpa using this.symm
+        · rw [nodeVal_op S m o path _ _ _ rfl hm]
+          cases k <;> simp [isOrNode, evalT, evalTs]
+theorem propagateList_eq (S : CfgSpec cfg d) (C : Ctx d τ T m o) :
     ∀ (xs : List Tree) (path : List Nat) (i : Nat),
-    (∀ j c, xs[j]? = some c → Inv τ T m o (path ++ [i + j]) c) →
+    (∀ j c, xs[j]? = some c → Inv d τ T m o (path ++ [i + j]) c) →
     propagateList cfg m o path i xs =
       (evalTs d τ path i xs, okOf d τ (visList path i xs), koOf d τ (visList path i xs))
   | [], path, i, _ => by simp [propagateList, evalTs, visList, okOf_nil, koOf_nil]
@@ -699,7 +805,7 @@ term is true / false: the propagator returns the value of the query, each visite
 classified according to its value, nothing else is classified, and nothing is classified twice. -/
 theorem propagate_spec {cfg : PropCfg} {d : Bool} (S : CfgSpec cfg d) (τ : List Nat → Bool)
     (t : Tree) (hg : good false t = true) (matching other : List (List Nat))
-    (C : Ctx τ t matching other) :
+    (C : Ctx d τ t matching other) :
     (propagate cfg matching other [] t).1 = evalT d τ [] t ∧
     (∀ p n, t.at? p = some n → visible t p = true →
       (p ∈ (propagate cfg matching other [] t).2.1 ↔ evalT d τ p n = true) ∧
